@@ -69,7 +69,10 @@ def run(ctx, scratch):
                 if square:
                     if not (d['has_force'] or d['seeds'] in ('weights', 'values', 'labels', 'sources')):
                         continue      # no way to declare a square matrix bipartite for this entry point
-                    opts['force_bipartite'] = True
+                    # a square biadjacency is declared either by force_bipartite or, where the entry point takes per-side
+                    # seeds / sources, just by giving them (source_row / values_col ... imply the bipartite treatment)
+                    if not (d['seeds'] in ('weights', 'values', 'labels', 'sources') and rep % 2 == 0):
+                        opts['force_bipartite'] = True
                 if d['seeded']:
                     opts.setdefault('params', {})['random_state'] = 3
                 if name in VARIANTS:
